@@ -308,7 +308,7 @@ def cfg_sig(cfg):
 def run(rep):
     cfgs = list(scenarios(rep.quick))
     bound = rep.pick(1, 2)
-    tasks = rotate([(ch, bound, rep.pick(400, 1000)) for ch in chunks(cfgs, 6)], rep.seed)
+    tasks = rotate([(ch, bound, rep.pick(400, 700)) for ch in chunks(cfgs, 6)], rep.seed)
     for part in pmap(run_scenarios, tasks, rep.procs):
         m = part["cov"].pop("distinct_outcomes_max")
         rep.merge(part)
